@@ -1585,6 +1585,77 @@ def fam_pkt(ctx):
     return out
 
 
+# ---- helper calls inside a Dict lookup block, before the value is used
+def fam_look(ctx):
+    """the looked-up value is addressed through r0: every helper call the
+    generator makes inside the with-block (ktime, prandom, hash-map and
+    array-map variables) has to preserve r0.  Dict.update() and a second
+    lookup() return their own result in r0 and stay excluded.  Second half:
+    the same helpers between `r0 = 5` and a later read of r0."""
+    ctxs = [[], [0], [2]] if ctx.quick else [[], [0], [2], [6], [2, 3]]
+    lv0, lv1 = ["lv", 0], ["lv", 1]
+    rnd = BIN("&", PR, C(0xff))
+    out = []
+    for regs in ctxs:
+        rr = R(regs[-1]) if regs and regs[-1] else R(3)
+        helpers = [
+            [["set", L(2), KT]], [["set", L(3), PR]], [["set", L(2), rnd]],
+            [["set", R(2), PR]], [["set", R(3), rnd]], [["set", R(6), PR]],
+            [["set", ["w", 3], PR]], [["set", R(2), KT]],
+            [["set", L(3), BIN("+", rnd, lv0)]],
+            [["set", L(3), BIN("-", KT, lv0)]],
+            [["set", L(3), BIN("+", BIN("*", PR, C(3)), KT)]],
+            [["set", lv1, PR]], [["set", lv1, rnd]], [["set", lv0, KT]],
+            [["set", lv0, BIN("+", lv0, rnd)]],
+            [["set", R(3), rnd], ["set", lv1, R(3)]],
+            [["set", L(3), H(0)]], [["set", H(0), L(3)]],
+            [["set", H(0), lv0]], [["set", H(0), KT]],
+            [["set", L(2), A(0)]], [["set", A(0), L(2)]],
+            [["set", A(0), lv1]], [["iadd", A(0), C(1)]],
+            [["set", A(0), PR]],
+            [["if", ["mask", PR, 1], [["set", L(2), C(1)]], None]],
+            [["if", CMP(">", KT, L(3)), [["set", L(2), C(1)]],
+              [["set", L(2), C(2)]]]],
+            [["if", CMP("<", rnd, A(0)), [["set", lv1, C(0)]], None]],
+            [["if", CMP(">", H(0), lv0), [["set", L(2), C(1)]], None]],
+        ]
+        accesses = [[["set", L(2), lv1]], [["set", lv1, C(7)]],
+                    [["iadd", lv1, C(1)]],
+                    [["set", lv0, BIN("+", lv0, L(3))],
+                     ["set", L(2), lv1]]]
+        if ctx.quick:
+            accesses = accesses[:3]
+        for hs in helpers:
+            for acc in accesses:
+                for els in (None, [["set", L(2), C(0)]]):
+                    out.append(dict(
+                        xdp=True, min=32, loc=["B", "H", "I", "Q"],
+                        hv=["Q"], av=["I"], dict=[["I"], ["q", "I"]],
+                        regs=regctx(regs),
+                        body=[["set", ["dk", 0], C(3)],
+                              ["look", hs + acc, els]]))
+        # an explicitly owned r0 across the same helpers
+        for hs in helpers:
+            if mentions(hs, ("lv",)):
+                continue
+            for use in ([["set", L(2), R(0)]],
+                        [["set", R(0), BIN("+", R(0), C(1))],
+                         ["set", ["ea", "I", 4], R(0)]]):
+                out.append(dict(
+                    xdp=True, min=32, loc=["B", "H", "I", "Q"], hv=["Q"],
+                    av=["I"], regs=regctx(sorted(set(regs) | {0})),
+                    body=hs + use))
+    # with two and more owned registers the packet pointer and the array
+    # map leave too few registers to park r0..r5 in: lighter declarations
+    res = []
+    for sp in out:
+        if len(sp["regs"]) < 2:
+            res.append(sp)
+        elif not mentions(sp["body"], ("a", "ea")):
+            res.append(dict(sp, min=None, av=[]))
+    return res
+
+
 SPEC_FAMILIES = {
     "hash": (fam_hash, spec_triggers),
     "dict": (fam_dict, spec_triggers),
@@ -1592,6 +1663,7 @@ SPEC_FAMILIES = {
     "sub": (fam_sub, spec_triggers),
     "stack": (fam_stack, spec_triggers),
     "pkt": (fam_pkt, spec_triggers),
+    "look": (fam_look, spec_triggers),
 }
 
 
@@ -1775,7 +1847,7 @@ BUILDERS = {
     "c01": _b_c01, "c02": _b_c02, "c03": _b_c03, "c04": _b_c04,
     "c06": _b_c06, "c07": _b_c07, "c08": _b_c08, "c09": _b_c09,
     "hash": _b_spec, "dict": _b_spec, "time": _b_spec, "sub": _b_spec,
-    "stack": _b_spec, "pkt": _b_spec,
+    "stack": _b_spec, "pkt": _b_spec, "look": _b_spec,
     "group": _b_group, "dispatcher": _b_dispatcher,
 }
 
@@ -1860,9 +1932,12 @@ def run(ctx):
         "'packet access inside a packet-size guard': offset + size <= n for "
         "`packetSize > n`, `>= n` and minimumPacketSize = n (body) and for "
         "the Else part of `< n`, `<= n`",
-        "using the value of a Dict lookup after another helper call in the "
-        "same with-block (update(), a second lookup()) is not enumerated: "
-        "the looked-up value is only valid until then",
+        "inside a Dict lookup block the looked-up value must stay usable "
+        "across every helper call the generator makes on its own (ktime, "
+        "prandom, hash-map and array-map variables; family 'look'); only "
+        "update() and a second lookup() inside the block, which return their "
+        "own result in r0, and an assignment to r0 by the program itself "
+        "end its validity and are not followed by an access",
         "whatever exception the generator raises while a program is written "
         "or assembled counts as rejection by the generator, never as a "
         "violation",
